@@ -32,7 +32,7 @@ CLAIMED = {
    ref='DESIGN.md section 5, C16'),
  'C04': dict(
    technique='static analysis: interval x bit-slice abstract interpretation (trace partitioning by dynamic interval splitting) of Parser::parseInteger, numNibbles, InstrImm::getSize and the instruction branch of CodeGen::emitProgramBin (clang AST); emitted bytes folded with the ISA prefix rule as bit vectors',
-   text='Whole property: the int range is partitioned into value classes on which every branch of the sizing/encoding code is uniform (classes are split until it is); per class x 12 mnemonics the check shows no UB, a well-formed prefix chain of getSize() bytes with the right opcodes, and bit-for-bit reconstruction of the operand by the ISA prefix rule; both literal spellings are mapped onto int32 exactly, and the number branch of the lexer (interpreted with strtoul's result as the partitioned input) delivers every literal 0..2^32-1 unchanged. The partition covers all 2^32 values, which the suite (a few hundred values) cannot.',
+   text='Whole property: the int range is partitioned into value classes on which every branch of the sizing/encoding code is uniform (classes are split until it is); per class x 12 mnemonics the check shows no UB, a well-formed prefix chain of getSize() bytes with the right opcodes, and bit-for-bit reconstruction of the operand by the ISA prefix rule; both literal spellings are mapped onto int32 exactly, and the number branch of the lexer (interpreted with the result of strtoul as the partitioned input) delivers every literal 0..2^32-1 unchanged. The partition covers all 2^32 values, which the suite (a few hundred values) cannot.',
    note='Trusted: clang AST; the abstract interpreter (conditions must be uniform on a class else it is split; UB recorded per class); ISA prefix rule. Assumes two\'s complement and arithmetic >> on negative ints (true for the build compilers).',
    ref='DESIGN.md section 5, C04'),
  'C05': dict(
